@@ -55,3 +55,27 @@ Definition init_warm_start_smbo (sp : space) (rows : list (values * score)) : re
   | [] => Ok ([], [])                               (* values2positions([]) is never reached with no rows: numpy returns [] *)
   | wr => do ps <- values2positions sp (map fst wr); Ok (ps, map snd wr)
   end.
+
+(* ---------- TreeStructuredParzenEstimators._get_samples: the split of the training set into the best n_best and the other points ----------
+   index_best = Y.argsort()[-n_best:], index_worst = Y.argsort()[:n - n_best]; numpy's argsort is an oracle permutation `perm`
+   (checked: a permutation of range(n) along which Y is non-decreasing); the two kernel densities are fitted on X[index_best] and
+   X[index_worst] *)
+Definition tpe_split (perm : list nat) (n_best : nat) : list nat * list nat :=
+  (last_n n_best perm, firstn (length perm - n_best) perm).      (* (index_best, index_worst) *)
+
+Fixpoint nat_mem (x : nat) (l : list nat) : bool := match l with [] => false | y :: tl => Nat.eqb x y || nat_mem x tl end.
+Fixpoint nodup_b (l : list nat) : bool := match l with [] => true | x :: tl => negb (nat_mem x tl) && nodup_b tl end.
+Definition is_perm_of_range (perm : list nat) (n : nat) : bool :=
+  Nat.eqb (length perm) n && nodup_b perm && forallb (fun i => Nat.ltb i n) perm.
+
+(* what the correspondence unit checks of an observed (index_best, index_worst): together (worst first) they are an argsort of Y *)
+Fixpoint sorted_along (ys : list score) (idx : list nat) : bool :=
+  match idx with
+  | i :: ((j :: _) as tl) => match nth_error ys i, nth_error ys j with
+                             | Some a, Some b => sle a b && sorted_along ys tl
+                             | _, _ => false
+                             end
+  | _ => true
+  end.
+Definition tpe_split_ok (ys : list score) (n_best : nat) (best worst : list nat) : bool :=
+  is_perm_of_range (worst ++ best) (length ys) && Nat.eqb (length best) n_best && sorted_along ys (worst ++ best).
